@@ -220,6 +220,9 @@ type Interp struct {
 	Gos       []*ast.GoStmt
 	Switches  []*SwitchRec
 	shared    *sharedCtx
+	// StreamOuts (root only): write streams handed out by buf.Read(b)
+	StreamOuts []*StreamOut
+	mode       string // root only: the mode Interpret was asked for
 
 	pendingRead *Rec
 	curFacts    []Fact
@@ -851,6 +854,9 @@ func (in *Interp) eval(st *State, e ast.Expr) Val {
 	case *ast.UnaryExpr:
 		switch x.Op {
 		case token.AND:
+			if cl, ok := unparen(x.X).(*ast.CompositeLit); ok && isBytesBuffer(in.info.TypeOf(cl)) {
+				return in.newStream(st, x.Pos())
+			}
 			if cl, ok := unparen(x.X).(*ast.CompositeLit); ok {
 				return in.compositeLit(st, cl)
 			}
@@ -866,6 +872,9 @@ func (in *Interp) eval(st *State, e ast.Expr) Val {
 				}
 			case *ast.Ident:
 				if vr, ok := in.obj(ax).(*types.Var); ok && !(vr.Pkg() != nil && vr.Parent() == vr.Pkg().Scope()) {
+					if sv, _, isStream := in.streamOf(st, st.vars[vr]); isStream {
+						return sv
+					}
 					if _, known := st.vars[vr]; known {
 						return PtrV{Var: vr, Elem: vr.Type()}
 					}
